@@ -70,7 +70,7 @@ func c14PeerIdentity(name string, idx int, shared bool) (broadcast string, tcpPo
 	if shared {
 		return "nX", 4150 + 10*idx, 4999 // one and the same broadcast_address:http_port
 	}
-	return name, 4150 + 10*idx, 4151 + 10*idx
+	return name, 4150 + 10*idx, 5161 + 7*idx
 }
 
 // node name as POST /topic/tombstone wants it
